@@ -33,6 +33,9 @@ def value_classes(ctx: Ctx) -> dict[ClassInfo, str]:
     out: dict[ClassInfo, str] = {}
     for c in [k.relation_root] + k.relation_kinds:
         out[c] = "relation kind"
+    proto = m.module(RELATION).classes.get("Relation")
+    if proto is not None:
+        out[proto] = "the Relation protocol (static type of every relation-valued name)"
     for c in k.node_unary_ops + k.node_binary_ops:
         out[c] = "operation class that can be held by a tree node"
     # PartialJoin is a placeholder but is user-visible and declared a frozen dataclass; it holds a relation
@@ -633,6 +636,12 @@ def r09_4_no_shared_mutation(ctx: Ctx, whole_package: bool = True) -> None:
     def is_value_class(c: ClassInfo | None) -> bool:
         return c is not None and (c in vcs or any(m.is_subclass(c, v) for v in vcs))
 
+    row_iterable = m.cls("iteration/_row_iterable.py", "RowIterable")
+    sql_payload = m.cls(SQL_PAYLOAD, "Payload")
+
+    def is_payload_class(c: ClassInfo | None) -> bool:
+        return c is not None and (m.is_subclass(c, row_iterable) or m.is_subclass(c, sql_payload))
+
     funcs = list(m.all_functions())
     for fi in funcs:
         if fi.is_abstract:
@@ -670,14 +679,14 @@ def r09_4_no_shared_mutation(ctx: Ctx, whole_package: bool = True) -> None:
                         if owner is not None and not is_value_class(owner) and fresh_owner:
                             verdict_ok, why = True, f"field of a fresh {owner.name} ({d})"
                             mutated_struct_fields.setdefault((owner, chain[0]), []).append((fi, site))
-                        elif owner is not None and not is_value_class(owner) and owner.is_dataclass is False:
-                            verdict_ok, why = True, f"state of a non-value object {owner.name}"
                         else:
                             why = f"`{name}` is {d}"
                 elif isinstance(root, ast.Name) and root.id == "self":
                     owner = fi.cls
-                    if owner is not None and not is_value_class(owner):
+                    if owner is not None and not is_value_class(owner) and not is_payload_class(owner):
                         verdict_ok, why = True, f"own state of non-value class {owner.name}"
+                    elif owner is not None and is_payload_class(owner) and fi.name == "__init__":
+                        verdict_ok, why = True, "payload object under construction"
                     else:
                         why = f"state reachable from a value object ({owner.name if owner else '?'})"
                 else:
